@@ -164,7 +164,11 @@ def run(prog, rep):
     optconv.check(prog, rep, 'C02')
     lemmas.load_all()
     guarded(rep, "C02.R1", SLOW, lambda: _check(prog, rep))
-    for l in ("C07.R1", "C12.R6", "C12.R7"):
+    need = ["C07.R1", "C12.R6", "C12.R7", "C12.R3", "C12.R4", "C12.R9", "C11.R3", "C11.R1", "C11.R8", "C07.R4"]
+    from .common import has_feature
+    if has_feature(prog, "unicode-linebreak"):
+        need += ["C11.R2", "C11.R5", "C11.R6"]
+    for l in need:
         st = lemmas.status(prog, l)
         if st == "ok":
             rep.ok("C02.R5", "crate", "lemma %s holds in this run" % l, "evaluated: ok", nontrivial=False)
